@@ -2,12 +2,33 @@ from props.common import run_pyvc
 from pyvc import runner
 
 PID = "C09"
-FUNCS = []
+A = "pyrex.antenna.Antenna."
+S = "pyrex.detector.AntennaSystem."
+FUNCS = [A + f for f in ("__init__", "is_hit", "is_hit_during", "clear", "waveforms", "all_waveforms", "full_waveform", "make_noise",
+                         "trigger", "receive")] + \
+    [S + f for f in ("__init__", "is_hit", "clear", "signals", "waveforms", "all_waveforms", "full_waveform", "make_noise",
+                     "_calculate_lead_in_times", "receive", "trigger")]
 
 
 def setup(rep):
     runner.hash_functions(rep, FUNCS)
-    rep.min_obligations = 3
+    rep.min_obligations = 200
+    rep.clause("bookkeeping", "B", "INV_ant (|triggers| <= |waves| <= |signals|, wave i on signal i's grid, trigger i = trigger(wave i)) holds "
+               "after construction and is preserved by all_waveforms, waveforms, is_hit, receive, clear from every state with up to 2 "
+               "signals (arbitrary contents): one waveform per received signal on its own grid, triggered waveforms are exactly "
+               "those satisfying the trigger in reception order, is_hit iff there is one, clear empties everything; Antenna and "
+               "AntennaSystem")
+    rep.clause("stale-waveforms", "B", "every reported waveform is current w.r.t. the received signals when nothing was cached before "
+               "the last receive; otherwise known finding D11")
+    rep.clause("superposition", "A", "full_waveform without noise: long grid = window extended by ceil(longest signal/dt) samples on both "
+               "sides and containing the window's samples; every overlapping signal is re-gridded onto it and added once; the sum is "
+               "re-gridded onto the window (interpolation laws: A5, C04) - sampling interval normalised to 1")
+    rep.clause("noise-master", "P", "one noise realisation is created on first use with the antenna's parameters and re-evaluated at the "
+               "requested absolute times until clear(reset_noise=True); missing parameters rejected")
+    rep.clause("system-front-end", "P", "lead-in grid ends in the window, keeps dt and covers lead_in_time; the system waveform is the "
+               "antenna waveform on the lead-in grid passed through the front end and cropped to the window")
+    rep.bounded.append("list lengths 0..2 in the bookkeeping harnesses (contents arbitrary)")
+    rep.assume("A4 trigger functions are deterministic; A5 interpolation laws of np.interp; A9")
 
 
 def run(tier="quick", seed=0, only=None, verbose=False):
